@@ -287,6 +287,13 @@ var xPieces = []piece{
 		p.Decls = append(p.Decls, fmt.Sprintf("type %s struct {\n\ta, b int\n}", t))
 		p.Stmts = append(p.Stmts, fmt.Sprintf("if x := (%s{%d, 2}); x.a > %d {\n\techo \"big\", x\n} else if y := (%s{}); y == (%s{}) {\n\techo \"zero\", x, y\n}", t, r.Intn(10), r.Intn(10), t, t))
 	}},
+	{"switchconst", func(r *vh.Rand, p *XProg) {
+		x := p.id("k")
+		p.Stmts = append(p.Stmts,
+			fmt.Sprintf("%s := %d", x, r.Intn(6)),
+			fmt.Sprintf("switch %s {\ncase 0, 1:\n\techo \"low\"\ncase %d:\n\techo \"mid\"\n\tfallthrough\ncase 7:\n\techo \"seven\"\ndefault:\n\techo \"other\"\n}", x, 2+r.Intn(4)),
+			fmt.Sprintf("switch s := \"v${%s}\"; s {\ncase \"v1\", \"v2\":\n\techo 12\ncase \"v3\":\n\techo 3\n}", x))
+	}},
 	{"closures", func(r *vh.Rand, p *XProg) {
 		f := p.id("counter")
 		p.Decls = append(p.Decls, fmt.Sprintf("func %s(step int) func() int {\n\tn := 0\n\treturn func() int {\n\t\tn += step\n\t\treturn n\n\t}\n}", f))
